@@ -1,8 +1,14 @@
 // search.go: the two searches (Box A: breadth-first over every interleaving; Box B: iterative
-// deviation bounding) and the worker that expands states. A state is identified by its event
-// path; the worker re-executes the path on fresh RawNodes, then produces every successor by
-// re-running the touched node's private input history on fresh objects and applying one more
-// event (cluster.fork). Nothing but paths and hashes is cached.
+// deviation bounding) and the worker that expands states.
+//
+// A state is identified by its event path. The coordinator caches nothing but paths (as a
+// parent-pointer tree) and 64-bit state hashes. A worker reconstructs a state by running its
+// path from the initial state and produces each successor by one more cluster.step. Steps are
+// functional: a cluster value is immutable and a node-level transition (input history, input)
+// is executed by a real RawNode exactly once per worker process and memoised (see sim in
+// cluster.go); a RawNode in the right history state is obtained by re-running that history on
+// fresh objects, never by copying one. One expanded state in 64 is additionally re-executed
+// straight-line, without memo, on fresh RawNodes and must reproduce the same state hash.
 package main
 
 import (
@@ -73,7 +79,7 @@ type cand struct {
 }
 
 // candidates enumerates the events to try in a state. Enabledness proper is decided by
-// cluster.apply; this only shapes the alphabet of the box.
+// cluster.step; this only shapes the alphabet of the box.
 func (b *Box) candidates(c *cluster, dev int) []cand {
 	var out []cand
 	drivers := func(cost uint8, only uint32) {
@@ -286,7 +292,6 @@ var (
 	workerSim    *sim
 	workerSimBox = -1
 	workerCount  int
-	workerValid  int
 )
 
 func (x *expander) stop() bool {
@@ -298,11 +303,11 @@ func (x *expander) stop() bool {
 }
 
 func worker(tb []byte, progress func()) []byte {
-	// the live heap of a worker is a few MB while it allocates GBs of short-lived RawNodes:
-	// collect by memory limit instead of by growth ratio
+	// a worker allocates GBs of short-lived objects next to a memo of a few hundred MB:
+	// collect rarely
 	gcOnce.Do(func() {
-		debug.SetGCPercent(-1)
-		debug.SetMemoryLimit(1 << 30)
+		debug.SetGCPercent(400)
+		debug.SetMemoryLimit(3 << 30)
 	})
 	r := &rd{b: tb}
 	boxIdx := int(r.u8())
@@ -373,10 +378,10 @@ func worker(tb []byte, progress func()) []byte {
 	return w.b
 }
 
-// expand re-executes the path of a state on fresh nodes and produces its successors. Every
-// alternative is executed on a fork (touched node rebuilt from its own input history); in
-// Box B a state with a single free continuation (deliver the oldest message) is then advanced
-// in place and expanded in turn, so a FIFO run between two quiescent points costs one replay.
+// expand re-executes the path of a state and produces its successors. In Box B a state with a
+// single free continuation (deliver the oldest message) is followed to the next state and that
+// one expanded in turn, so a FIFO run between two quiescent points is reported as one chain
+// of records and costs one path replay.
 func (x *expander) expand(s *taskState, ref int32, progress func()) stateRes {
 	box := x.box
 	res := stateRes{id: s.id}
